@@ -8,6 +8,25 @@ COMMON_TRUSTED = [
 ]
 
 PROPS = {
+    "C01": dict(
+        engines=[dict(name="arith", quick=700, thorough=40000, shard=500, trivial_tags=[])],
+        rule="seeded generator over (workload kind of 7, plan of 1-6 int/percent/mixed steps, replicas 0..10^5 with boundary values and the "
+             "99..219 region, current batch, noNeedUpdateReplicas, current knob: absent/initial/earlier batch/arbitrary) + corpus of the "
+             "known-finding witnesses; every case runs the real CalculateBatchContext and UpgradeBatch on the fake client; distinct = distinct input JSON",
+        trusted=["exposed(kind, knob, n): the number of new-revision pods the workload's own controller may run under a knob value is an assumption "
+                 "(CloneSet/StatefulSet/DaemonSet/native Deployment controllers live outside /repo)",
+                 "intstr float64 arithmetic equals the integer ceil/floor formulas for |p*total| < 2^53"],
+        assumptions=["0 <= replicas, steps valid (int > 0, 0 < percent <= 100) as the validating webhook enforces", "int32 overflow not modelled (replicas <= 10^6 in the generator)"],
+        explanation="C01 arithmetic theorems for all n; closed-loop history theorem not yet built (see level_note)",
+    ),
+    "C07": dict(
+        engines=[dict(name="arith", quick=700, thorough=40000, shard=500, trivial_tags=[])],
+        rule="as C01 (arith engine): the readiness target DesiredUpdatedReplicas returned by the real CalculateBatchContext is compared with what the knob "
+             "left by the real UpgradeBatch admits",
+        trusted=["exposed(kind, knob, n) as in C01"],
+        assumptions=["steps valid as enforced by admission"],
+        explanation="C07_target_suffices for all n outside three characterised regions, each refuted by a witness and listed as a known finding",
+    ),
     "C12": dict(
         engines=[dict(name="labelpatch", quick=400, thorough=20000, shard=400, trivial_tags=["no-write"])],
         rule="seeded structured generator of (plan, replicas, current batch, rollout-id, update revision, pods with revision labels/"
@@ -25,6 +44,22 @@ HOOK_COMMITS = []
 NOT_APPLICABLE = []
 
 MANIFEST_TEXT = {
+    "C01": dict(
+        text="Proof (arithmetic layer): for every workload kind, every valid int/percent step, every replica count (unbounded) and with or without "
+             "rollback-in-batches bookkeeping, the knob CalculateBatchContext computes exposes at most the step's allowance plus 1% of the size, "
+             "UpgradeBatch writes exactly that knob and never lowers the exposure, and later steps of a same-typed plan allow no less. The Gallina "
+             "functions are compared with the real CalculateBatchContext/UpgradeBatch of the seven control.go on every run.",
+        note="Partial with respect to the full statement: the history layer (which batch the executor works on, batchPartition written by the Rollout "
+             "reconciler, interleavings with scale events and plan edits) is covered by the C11/C02 single-reconcile theorems, not yet by a closed-loop "
+             "history theorem. exposed() for external workload controllers is assumed. Known finding F12 (mixed int/percent partition Deployment).",
+        design_ref="DESIGN.md section 9, C01"),
+    "C07": dict(
+        text="Proof (fixed-point/arithmetic layer): the update target always suffices for the readiness criterion, proved for all kinds, steps and n "
+             "outside three exactly characterised regions that are refuted by witnesses and listed as known findings (F1, F12, F21). Provider fixed "
+             "points are served by the C13/C14/C15 engines.",
+        note="Partial: termination of the whole healthy rollout (fair schedules, wake-ups) is not proved; it is outside what the current model carries. "
+             "exposed() assumed.",
+        design_ref="DESIGN.md section 9, C07"),
     "C12": dict(
         text="Proof: Properties/C12.v states, for every pod list, plan, replica count, batch and every label string, that batch-label writes of "
              "the PatchPodBatchLabel model go only to live new-revision pods not yet labelled for this release, one label per pod, at most "
